@@ -1,6 +1,7 @@
 ----------------------------- MODULE TraceScgf -----------------------------
 (* C->S binding for C02.  A record is one attempt to build and write a definition from a program:
-     [id, prog, raised, err, nbytes, parsed, created, wf, wf_lost, desc]
+     [id, prog, raised, err, nbytes, sha, ref, parsed, created, wf, wf_lost, desc]
+   ref      "" or, for a definition built while another thread was building, the sha of the same program built alone
    parsed   the emitted bytes read by the independent SCgf reader (harness/scgf.py)
    created  for every emitted unit its creation stamp inside the graph function (0 = made later)
    wf       for every emitted unit 1 if the function created it as a width-first unit
@@ -93,6 +94,8 @@ OrderWhy(d, created, wfl) ==
 Why(t) ==
     IF ~ProgShapeOK(t.prog) THEN "bad-program-shape"
     ELSE IF MustRaise(t.prog) THEN (IF t.raised = 1 /\ t.nbytes = 0 THEN "ok" ELSE "invalid-accepted")
+    \* built while another thread was building (ref = sha of the same program built alone): it must not fail ...
+    ELSE IF t.ref # "" /\ t.raised = 1 THEN "differs-from-sequential-build:raised"
     ELSE IF t.raised = 1 THEN (IF t.nbytes = 0 THEN "ok" ELSE "bytes-after-exception")
     ELSE LET sw == ScgfWhy(t.parsed, t.prog.name) IN
          IF sw # "ok" THEN "malformed:" \o sw
@@ -106,6 +109,8 @@ Why(t) ==
               ELSE IF ProgCtlWhy(t.prog, t.desc[2]) # "ok" THEN ProgCtlWhy(t.prog, t.desc[2])
               \* the same bytes read from a file with the definitions kept (SynthDesc.read / SynthDescLib.read)
               ELSE IF DescWhy(d, t.desc[3]) # "ok" THEN "read_file:" \o DescWhy(d, t.desc[3])
+              \* ... and, being well-formed, it must be byte-identical to the definition built alone
+              ELSE IF t.ref # "" /\ t.sha # t.ref THEN "differs-from-sequential-build"
               ELSE "ok"
 Step == /\ l = 1
         /\ LET why == Why(Traces[tid]) IN
